@@ -54,7 +54,7 @@ claim("C09",
   "sequential histories plus ONE preemption of a Flush in its retry loop; callback mode and pooled streams are not in this harness (pool: see C15); timers are modelled as expired, a select takes ready non-timer cases first",
   "DESIGN.md 15.3/C09")
 claim("C10",
-  "Session model histories: stream state only moves forward (monitor after every step); after a local Close the stream is closed, absent from the session's stream table and stays absent (a close notification must not re-create it), Flush fails with ErrStreamClosed and drops its data, reads fail; after delivery the peer is not open any more and reads report the end after draining; repeated Close returns nil; no active stream is left on either side after wind-down. Callback mode (H_C20_inline, H_C20_window): Close from inside OnData (after consuming everything or one byte), the peer's Close arriving while OnData runs or at any synchronisation point of the callback goroutine: state final, exactly one close report, peer notified - with KNOWN FINDINGS F-CBCLOSE (Close inside OnData: no report, peer not notified), F-CLOSEOVERTAKE, F-ZOMBIE.",
+  "Session model histories: stream state only moves forward (monitor after every step); after a local Close the stream is closed, absent from the session's stream table and stays absent (a close notification must not re-create it), Flush fails with ErrStreamClosed and drops its data, reads fail; after delivery the peer is not open any more and reads report the end after draining; repeated Close returns nil; no active stream is left on either side after wind-down. Callback mode (H_C20_inline, H_C20_window): Close from inside OnData (after consuming everything or one byte), the peer's Close arriving while OnData runs or at any synchronisation point of the callback goroutine: state final, exactly one close report, peer notified - with KNOWN FINDINGS F-CBCLOSE (Close inside OnData: no report, peer not notified), F-CLOSEOVERTAKE, F-ZOMBIE. Both ends closing at once (H_SM_closewindow): the client's Close stopped in front of every synchronisation operation while the server closes (notifications in either order) or server data arrives: both end up closed, nothing stays registered, census holds. One genuine defect found and fixed (F-CLOSERACE).",
   "sequential histories and single-preemption windows; simultaneous Close calls on both ends from concurrent goroutines are NOT covered beyond those; known findings are matched by exact assertion id / harness history predicate",
   "DESIGN.md 15.3/C10")
 claim("C13",
@@ -76,8 +76,8 @@ claim("C16",
   "DESIGN.md 15.3/C16")
 
 claim("C11",
-  "Sequential fragment: a blocking call whose releasing event has already happened returns at once with the right result (enough data -> nil; peer close -> drained then ErrEndOfStream; local close -> closed-stream error; session close -> error and AcceptStream returns; deadline -> ErrTimeout, and no timeout when data is there; Flush returns although the queue stays full). In addition every sequential harness of this tree carries 'noblock' obligations on every lock, channel, select and WaitGroup wait it reaches.",
-  "NOT covered: the interleaving of the releasing event with the caller entering its wait (missed-notification windows) except for Flush's retry loop (C09/C14 flush window), elapsed time ('within a bounded time', 'never early'), handshake time-outs; timers are modelled as expired, a select takes ready non-timer cases first and a timer case only when nothing else is ready",
+  "Sequential fragment: a blocking call whose releasing event has already happened returns at once with the right result (enough data -> nil; peer close -> drained then ErrEndOfStream; local close -> closed-stream error; session close -> error and AcceptStream returns; deadline -> ErrTimeout, and no timeout when data is there; Flush returns although the queue stays full). In addition every sequential harness of this tree carries 'noblock' obligations on every lock, channel, select and WaitGroup wait it reaches. Release window (H_C11_window): a read that needs more than is there is stopped in front of every synchronisation operation (in particular between finding too little data and entering its wait) while enough data arrives / the peer closes / the stream is closed locally / the session is closed: it returns with the matching result and never waits for ever.",
+  "NOT covered: more than one releasing event per run, elapsed time ('within a bounded time', 'never early'), handshake time-outs; timers are modelled as expired, a select takes ready non-timer cases first and a timer case only when nothing else is ready",
   "DESIGN.md 15.3/C11")
 claim("C14",
   "Containment and resource census over an OS model (sequential): shared memory created by the real initMemManager (memfd) and mapped by the real mappingQueueManagerMemfd / getGlobalBufferManagerWithMemFd; one stream with a message in flight / delivered / partly read; then the connection reports remote close, or Close, or exitErr; the posted teardown lambdas run: nothing panics, the session is closed, Close is idempotent and the teardown is posted once, pending and later stream calls fail, exactly one close callback, no new stream, the peer session closes too, and the OS model's census of descriptors and mappings is back to zero. Deferred work (H_C14_lambdas): the real epollDispatcher.post/runLambda with lambdas posted before and during a running batch: each runs exactly once, none is left pending. Pending call (H_SM_flushwindow, adversary 'session death'): a Flush in its queue-full retry loop stopped at every synchronisation point while the session is closed and its teardown lambda runs (queue manager released): the Flush returns an error, leaves nothing buffered, later reads fail, nothing panics. Sync-point hook family: the main call runs sequentially on the real code and is stopped in front of its k-th synchronisation operation (atomic, lock acquisition, channel operation; k is enumerated) while a closure standing for the other goroutines / the peer runs to completion.",
